@@ -101,7 +101,13 @@ pub fn judge(w: &World, r: &RunResult) -> Vec<Violation> {
         }
         let outs: BTreeMap<&str, Vec<u8>> = match &e.res {
             Ok(o) => o.iter().map(|(n, h)| (*n, h.0.clone())).collect(),
-            Err(_) => BTreeMap::new(),
+            Err(f) => {
+                // in the honest worlds every input is one the specification defines a result for
+                if !w.note.starts_with("c09 crafted") && !f.is_panic() && !matches!(op, Op::LoginFinish { .. } | Op::ServerFinish { .. }) {
+                    v.push(Violation { clause: "spec_mismatch", op: i, detail: format!("{} ({}): the implementation fails ({}) on inputs for which the specification defines a result", op.name(), w.suite, f.short()) });
+                }
+                BTreeMap::new()
+            }
         };
         // hidden random choices are searched by value in every window of the op's tape,
         // so that splitting or merging draws is not an alarm
